@@ -332,7 +332,7 @@ func c13Trip(baseName string) Harness {
 		t := genTrip(c, "", b)
 		key := tripKey(t)
 		var stream string
-		var variants [5]string
+		var variants [6]string
 		pan, where, text, stack := guard(func() {
 			stream = tripStream(t)
 			variants[0] = tripStream(t)
@@ -344,6 +344,21 @@ func c13Trip(baseName string) Harness {
 			g := cloneTrip(t, nil)
 			g.Vehicle = &gtfs.Vehicle{ID: &gtfs.VehicleID{ID: "other"}, Trip: g}
 			variants[4] = tripStream(g)
+			// where arrival and departure are equal in value, ONE object serving as both hashes like two
+			variants[5] = stream
+			h := cloneTrip(t, nil)
+			shared := false
+			for i := range h.StopTimeUpdates {
+				u := &h.StopTimeUpdates[i]
+				if u.Arrival != nil && u.Departure != nil && dumpEvent(u.Arrival) == dumpEvent(u.Departure) {
+					u.Departure = u.Arrival
+					shared = true
+				}
+			}
+			if shared {
+				variants[5] = tripStream(h)
+				c.Witness("one_event_object_as_arrival_and_departure")
+			}
 		})
 		c.Input(hash64(key), len(t.StopTimeUpdates) > 0 || t.ID.ID != "", func() string { return key })
 		if pan {
@@ -351,7 +366,7 @@ func c13Trip(baseName string) Harness {
 			return
 		}
 		c.Steps(6)
-		names := []string{"hashed-twice", "deep-copy", "other-zone", "in-message-flag", "vehicle-backref"}
+		names := []string{"hashed-twice", "deep-copy", "other-zone", "in-message-flag", "vehicle-backref", "shared-event-object"}
 		for i, v := range variants {
 			if v != stream {
 				c.Fail("trip-hash-depends-on:"+names[i], "hash input differs for %s of %s\n got %x\nwant %x", names[i], key, v, stream)
